@@ -160,7 +160,8 @@ Inductive succ :=
   | SCfg (c : cfg)      (* printing continues there *)
   | SNoPrinter          (* no print method is resolved *)
   | SNoCopy             (* the resolved method wraps the item's live children in a new container *)
-  | SEmit               (* the resolved leaf method does not return normally on this scalar kind *)
+  | SEmit               (* the resolved leaf method does not return normally on null (the class of D19) *)
+  | SEmitOther          (* ... on some other scalar class *)
   | SBad.               (* the model itself is stuck: unknown method, missing parent / sub-formatter, fuel *)
 
 Definition apply_target (f : finst) (t : target) : option finst :=
@@ -211,8 +212,15 @@ Fixpoint run_method (fuel : nat) (f : finst) (owner name cls ko : string) : list
       end
   end.
 
-Definition emit_ok (owner name cls : string) : bool :=
-  match assoc3 (owner, name, cls) (t_emit T) with Some b => b | None => true end.
+Definition emit_kinds (owner name cls : string) : list (string * bool) :=
+  match assoc3 (owner, name, cls) (t_emit T) with Some l => l | None => [] end.
+(* the scalar classes inside the class of the open finding D19 *)
+Definition kf_kind (k : string) : bool := String.eqb k "null".
+Definition emit_ok (owner name cls : string) : bool := forallb (fun kb : string * bool => snd kb) (emit_kinds owner name cls).
+Definition emit_kf_ok (owner name cls : string) : bool :=
+  forallb (fun kb : string * bool => snd kb || negb (kf_kind (fst kb))) (emit_kinds owner name cls).
+Definition emit_other_ok (owner name cls : string) : bool :=
+  forallb (fun kb : string * bool => snd kb || kf_kind (fst kb)) (emit_kinds owner name cls).
 
 Definition is_subedit (mro : list string) : bool := existsb (fun b => mem b mro) (t_subedit T).
 
@@ -224,7 +232,9 @@ Definition step (c : cfg) : list succ :=
   match resolve mro (Some (c_f c)) with
   | RFound f m =>
       match has_print (fcls f) m with
-      | Some ow => (if emit_ok ow m (c_cls c) then [] else [SEmit]) ++ run_method MFUEL f ow m (c_cls c) (c_ko c)
+      | Some ow => (if emit_kf_ok ow m (c_cls c) then [] else [SEmit]) ++
+                   (if emit_other_ok ow m (c_cls c) then [] else [SEmitOther]) ++
+                   run_method MFUEL f ow m (c_cls c) (c_ko c)
       | None => [SBad]
       end
   | RNone => [SNoPrinter]
@@ -266,22 +276,23 @@ Definition entries_in (of : string) (m : omode) (S : list cfg) : bool :=
 
 Definition is_err (k : succ) (s : succ) : bool :=
   match k, s with
-  | SNoPrinter, SNoPrinter | SNoCopy, SNoCopy | SEmit, SEmit | SBad, SBad => true
+  | SNoPrinter, SNoPrinter | SNoCopy, SNoCopy | SEmit, SEmit | SEmitOther, SEmitOther | SBad, SBad => true
   | _, _ => false
   end.
 Definition cfg_has (k : succ) (c : cfg) : bool := existsb (is_err k) (step c).
 (* a configuration is clean when printing it cannot fail in any of the modelled ways *)
 Definition cfg_clean (c : cfg) : bool :=
-  negb (cfg_has SNoPrinter c) && negb (cfg_has SNoCopy c) && negb (cfg_has SEmit c) && negb (cfg_has SBad c).
+  negb (cfg_has SNoPrinter c) && negb (cfg_has SNoCopy c) && negb (cfg_has SEmit c) && negb (cfg_has SBad c)
+  && negb (cfg_has SEmitOther c).
 
 (* ---- the known-finding classes, DEFINED BY THE MODEL on a configuration of the product ---- *)
 (* D9: some reachable (formatter instance, class) resolves to a method that wraps live children *)
 Definition kf_reparent_cfg (of : string) (m : omode) : bool := existsb (cfg_has SNoCopy) (reach of m).
-(* D19: some reachable leaf class is handed to an emitter that is undefined on it (plistlib has no null) *)
+(* D19: some reachable leaf class is handed to an emitter that is undefined on null (plistlib has no null) *)
 Definition kf_emit_cfg (of : string) (m : omode) : bool := existsb (cfg_has SEmit) (reach of m).
 (* neither: dispatch is not total, or the model is stuck *)
 Definition other_err_cfg (of : string) (m : omode) : bool :=
-  existsb (fun c => cfg_has SNoPrinter c || cfg_has SBad c) (reach of m).
+  existsb (fun c => cfg_has SNoPrinter c || cfg_has SBad c || cfg_has SEmitOther c) (reach of m).
 
 Definition render_ok (of : string) (m : omode) : bool := forallb cfg_clean (reach of m).
 
@@ -392,7 +403,7 @@ Definition event_resolves (e : event) : bool :=
   slist_eqb (mro_of (e_cls e)) (e_mro e) &&
   ores_eqb (resolve (e_mro e) (match e_base e with [] => None | b => Some b end)) (e_res e).
 
-Inductive efail := FNone | FReparent | FEmit | FNoPrinter | FBad.
+Inductive efail := FNone | FReparent | FEmit | FEmitOther | FNoPrinter | FBad.
 (* does the model predict that this dispatch ends in an exception? *)
 Definition event_fail (it : gram) (e : event) : efail :=
   if e_is_edit e then FNone else
@@ -401,10 +412,15 @@ Definition event_fail (it : gram) (e : event) : efail :=
   | Some (f, m, ow) =>
       let cls := unedited (e_mro e) in
       let calls := run_method it MFUEL f ow m cls cls in
-      if negb (emit_ok ow m cls) then FEmit
-      else if existsb (is_err SNoCopy) calls && e_haskids e then FReparent
-      else if existsb (is_err SBad) calls then FBad
-      else FNone
+      let ks := emit_kinds ow m cls in
+      match ks, assoc (e_kind e) ks with
+      | _, Some false => if kf_kind (e_kind e) then FEmit else FEmitOther
+      | _ :: _, None => FBad      (* a scalar class the generator did not probe *)
+      | _, _ =>
+          if existsb (is_err SNoCopy) calls && e_haskids e then FReparent
+          else if existsb (is_err SBad) calls then FBad
+          else FNone
+      end
   end.
 Definition efail_none (f : efail) : bool := match f with FNone => true | _ => false end.
 
